@@ -309,6 +309,30 @@ def section_level_drops(ck):
     return out
 
 
+def reference_level_cases(ck):
+    """the slot numbers the save WRITES INTO TRIGGERS for equal objects of which one carries an index: each must name a slot
+    that holds the object (the allocation is only as good as the lookup that answers it)"""
+    import random as _r
+    import authoring as A
+    import c11
+    import scenarios as SC
+    import validator
+    out = []
+    bases = [(n_, b) for n_, b in SC.fixtures() if "scx" in n_][:1] + \
+            [("synthetic", SC.MapGen(_r.Random(17), "editor", nloc=255, all_sections=True, ntrig=1).build())]
+    for label, base, spec in c11.equal_twin_cases(bases):
+        r = A.run_impl(base, spec)
+        ck.evaluations += 1
+        ck.note_case(label)
+        if r[0] == 0:
+            continue
+        problems = validator.validate(bytes(r[1]))
+        if problems:
+            out.append((f"{label}: a trigger of the saved map refers to a slot that does not hold the object: {problems[0]}",
+                        {"kind": "dangling-reference", "label": label, "base_hex": base.hex(), "spec": spec}))
+    return out
+
+
 def model_line(which, existing, reqs):
     def rq(r):
         return "(1 %d)" % r[1] if r[0] == "carry" else ("(2)" if r[0] == "skip" else "(0)")
@@ -325,7 +349,7 @@ def run(ck: vlib.Check):
                "free, almost full} x batches {new, carrying a free / an occupied / the reserved index, two objects "
                "carrying one index, equal contents / equal path} x forced iteration orders (the editors' set builders "
                "are replaced by ordered lists, every case also run reversed and shuffled); implementation outcome per "
-               "object vs extracted model, and the property evaluated on the implementation's result. Distinct = "
+               "object vs extracted model; the slot numbers written into triggers for equal objects of which one carries an index; and the property evaluated on the implementation's result. Distinct = "
                "distinct (table, occupancy, request list).")
     ck.regen(["consts"])
     with vlib.build_lock():
@@ -378,7 +402,7 @@ def run(ck: vlib.Check):
     ck.extra["cases_per_table"] = dist
     # objects placed straight into a rich section (not through an editor), with or without an index, referred to by
     # a trigger or not: each must be in the saved file, or the save must raise - never vanish
-    for bad in section_level_drops(ck):
+    for bad in section_level_drops(ck) + reference_level_cases(ck):
         ck.violation(bad[0], bad[1], True)
     if drv_ok:
         got = vlib.run_model(PROP, lines)
@@ -404,6 +428,13 @@ def replay(path: str) -> int:
         r = A.run_impl(bytes.fromhex(rp["base_hex"]), rp["spec"])
         print("the call still succeeds; inspect the output" if r[0] == 1 else "no longer failing (raises)")
         return 1 if r[0] == 1 else 0
+    if rp.get("kind") == "dangling-reference":
+        import authoring as A
+        import validator
+        r = A.run_impl(bytes.fromhex(rp["base_hex"]), rp["spec"])
+        problems = validator.validate(bytes(r[1])) if r[0] == 1 else []
+        print("still failing: " + problems[0] if problems else "no longer failing")
+        return 1 if problems else 0
     if rp.get("kind") == "alloc":
         M = imports()
         reqs = [tuple(r) for r in rp["requests"]]
